@@ -112,8 +112,9 @@ uint32_t PPPoE::header_size() const {
 
 void PPPoE::write_serialization(uint8_t* buffer, uint32_t total_sz) {
     OutputMemoryStream stream(buffer, total_sz);
-    if (tags_size_ > 0) {
-        payload_length(tags_size_);
+    if (tags_size_ > 0 || inner_pdu()) {
+        // The payload length covers the tags and whatever is carried inside (session packets)
+        payload_length(static_cast<uint16_t>(tags_size_ + (inner_pdu() ? inner_pdu()->size() : 0)));
     }
     stream.write(header_);
     for (tags_type::const_iterator it = tags_.begin(); it != tags_.end(); ++it) {
